@@ -941,8 +941,8 @@ def normalize_params(sig, body, stats, byref=False):
             # a shared handle taken by value: the real MutRc/MutArc mutate through `&self`, the stand-ins
             # through `&mut self`; the binding is re-bound mutably so that a body that writes through a
             # by-value handle parameter still type-checks (stand-in artefact, not a change of the code)
-            if re.match(r"^[A-Za-z]\w*$", pat) and not ty.startswith("&") and re.search(r"\b(MutRc|MutArc|Subscriber(Threads)?|FlagCell)\b", ty) \
-                    and re.search(r"\b%s\s*\.\s*rc_deref_mut\s*\(" % re.escape(pat), body):
+            if re.match(r"^[A-Za-z]\w*$", pat) and not ty.startswith("&") and re.search(r"\b(MutRc|MutArc|Subscriber(Threads)?|FlagCell|Cell|AtomicBool)\b", ty) \
+                    and re.search(r"\b%s\s*\.\s*(rc_deref_mut|set|store|swap|replace|fetch_\w+)\s*\(" % re.escape(pat), body):
                 lets.append("\n    let mut %s = %s;" % (pat, pat))
             continue
         nm = "arg_%d" % k
@@ -1021,7 +1021,10 @@ def process_fn(fn, spec, handle, stats, canary):
         masked = mask_trivia(body)
         ms_ = list(re.finditer(rx_s, masked))
         if not ms_:
-            raise ExtractError("yield point of %s not found: %s" % (name, rx_s))
+            # the other obligations of the function still decide; if they all pass the runner reports the
+            # unit as undecided, because this re-entry obligation could not be placed
+            stats.setdefault("yield_points_missing", []).append("%s: %s" % (name, rx_s))
+            continue
         for m_ in reversed(ms_):
             k_ = max(masked.rfind(";", 0, m_.start()), masked.rfind("{", 0, m_.start()), masked.rfind("}", 0, m_.start()))
             e_, _, c_ = expr_.partition("//")
@@ -1525,6 +1528,15 @@ def generate_(template_path, variant, canary=False):
                 st_ = "#[verifier::reject_recursive_types(%s)]\n" % tp + st_
             out.append(st_)
             stats["sources"].append("%s %s::%s" % (d[2:], path, name))
+            # ownership condition (C13): an operator VALUE (`...Op`, `...OpThreads`) is plain data; a field
+            # whose type is a shared mutable cell would be shared by the derived Clone between the
+            # subscriptions of clones of one pipeline.  `shared=ok` marks the operators that are hot by
+            # design (share, status).  Decided on the extracted struct text (types), not by the solver.
+            if d == "@@struct" and re.search(r"Op(Threads)?$", name) and kv.get("shared") != "ok":
+                body_ = mask_trivia(st_)
+                body_ = body_[body_.index(name) + len(name):]
+                cells_ = sorted(set(re.findall(r"\b(MutRc|MutArc|FlagCell|RefCell|Cell|OnceCell|UnsafeCell|Mutex|RwLock|Atomic\w+|MultiSubscription\w*)\b", body_)))
+                stats.setdefault("plain_values", []).append([name, path, cells_])
             i += 1
             continue
         if d == "@@type":
